@@ -1,12 +1,14 @@
 #!/usr/bin/env python3
 """Copies confirmed seeds from /tmp/seeds/<prop>/<k> into /verif/seeded/<prop>-<k>/ with meta.json."""
 import json, os, shutil, sys, glob, re
-for d in sorted(glob.glob("/tmp/seeds/C*/[0-9]")):
+SRC = sys.argv[1] if len(sys.argv) > 1 else "/tmp/seeds"
+OFFSET = int(sys.argv[2]) if len(sys.argv) > 2 else 0
+for d in sorted(glob.glob(SRC + "/C*/[0-9]")):
     cj = os.path.join(d, "confirm.json")
     if not os.path.exists(cj): continue
     c = json.load(open(cj))
     if not c.get("confirmed"): continue
-    prop = os.path.basename(os.path.dirname(d)); k = os.path.basename(d)
+    prop = os.path.basename(os.path.dirname(d)); k = str(int(os.path.basename(d)) + OFFSET)
     dst = f"/verif/seeded/{prop}-{k}"
     if os.path.exists(os.path.join(dst, "meta.json")): continue
     os.makedirs(dst, exist_ok=True)
